@@ -301,6 +301,10 @@ class ClassParser(BaseParser):
     def make_getter(self, field: ParserField):
         def getter(_obj_self: object):
             if field.attname not in _obj_self.__dict__:
+                deferred_default = field.get_default(self.options, defer=True)
+                if not unprovided(deferred_default):
+                    # defer_default: evaluated on attribute access
+                    return deferred_default
                 raise AttributeError(
                     f"{self.name}: {repr(field.attname)} not provided in schema"
                 )
